@@ -1424,7 +1424,20 @@ def __analyse_function(
     test_cluster: ModuleTestCluster,
     add_to_test: bool,
 ) -> None:
-    if __should_skip_by_visibility(func_name.rpartition(".")[2], add_to_test=add_to_test):
+    visible_name = func_name.rpartition(".")[2]
+    lambda_assigned_name: str | None = None
+    if getattr(func, "__name__", None) == "<lambda>":
+        # A lambda is accessed (and exported) under the module-level name it is
+        # assigned to, so that name decides about its visibility.
+        lambda_assigned_name = _get_lambda_assigned_name(
+            module_tree, func.__code__.co_firstlineno
+        )
+        if lambda_assigned_name is None:
+            # If the lambda itself has no name, we must not add it to the test cluster
+            # or else it will cause an exception during test export.
+            return
+        visible_name = lambda_assigned_name
+    if __should_skip_by_visibility(visible_name, add_to_test=add_to_test):
         LOGGER.debug("Skipping function %s from analysis", func_name)
         return
     if inspect.iscoroutinefunction(func) or inspect.isasyncgenfunction(func):
@@ -1449,16 +1462,9 @@ def __analyse_function(
     description = get_function_description(func_ast)
     expected_exceptions = description.raises if description is not None else set()
     cyclomatic_complexity = __get_mccabe_complexity(func_ast)
-    if getattr(func, "__name__", None) == "<lambda>":
-        if lambda_assigned_name := _get_lambda_assigned_name(
-            module_tree, func.__code__.co_firstlineno
-        ):
-            func_name = lambda_assigned_name
-            func.__name__ = lambda_assigned_name
-        else:
-            # If the lambda itself has no name, we must not add it to the test cluster
-            # or else it will cause an exception during test export.
-            return
+    if lambda_assigned_name is not None:
+        func_name = lambda_assigned_name
+        func.__name__ = lambda_assigned_name
 
     generic_function = GenericFunction(func, inferred_signature, expected_exceptions, func_name)
 
